@@ -11,6 +11,7 @@ from ..refs import ConvexRef
 
 PROPERTY = "C17"
 ENGINE = "E2"
+TECHNIQUE = "exhaustive enumeration of parameter grids (plus near-degenerate neighbours) and of n=3..200 vs an independent half-space vertex enumeration"
 RULE = (
     "cases = every (a, c) on the rational grid of step 1/16 of each truncation family's rectangle (323+, 423; 523 on a 17x17 grid in "
     "barycentric coordinates of its irrational rectangle) including edges and corners, every truncation k/64, out-of-domain values "
